@@ -64,8 +64,8 @@ MIN = {
 
 NCASES = {'quick': 64, 'thorough': 512}
 EXHAUSTIVE_K = {'quick': 4, 'thorough': 5}      # non-root namespaces
-RANDOM_PER_CASE = {'quick': 250, 'thorough': 1500}
-SLICE_PER_CASE = {'quick': 800, 'thorough': 3000}   # next size up
+RANDOM_PER_CASE = {'quick': 250, 'thorough': 1000}
+SLICE_PER_CASE = {'quick': 800, 'thorough': 2000}   # next size up
 CFG_PER_CASE = {'quick': 10, 'thorough': 8}
 CASE_TIMEOUT = 600
 
